@@ -190,3 +190,55 @@ Lemma errs_only_next_bytes_nocopy n : errs_only E_generic (next_bytes_nocopy n).
 Proof. exact (errs_only_next_bytes n). Qed.
 Lemma errs_only_next_byte : errs_only E_generic next_byte.
 Proof. intros i. unfold next_byte. destruct (_ <? _); [reflexivity|]. destruct (_ <? _); exact I. Qed.
+
+(* ---------- the offset never goes back, the bytes stay ---------- *)
+
+Definition mono {A} (m : IM A) : Prop := forall i a i', m i = Ok (a, i') -> ioff i <= ioff i' /\ ibs i' = ibs i.
+
+Lemma mono_bind {A B} (m : IM A) (f : A -> IM B) : mono m -> (forall a, mono (f a)) -> mono (ibind m f).
+Proof.
+  intros Hm Hf i b i' E. apply ibind_ok in E. destruct E as (a & i1 & E1 & E2).
+  destruct (Hm _ _ _ E1) as (H1 & H2). destruct (Hf _ _ _ _ E2) as (H3 & H4). split; [lia|congruence].
+Qed.
+Lemma mono_ret {A} (a : A) : mono (iret a).
+Proof. intros i b i' E. inversion E; subst. split; [lia|reflexivity]. Qed.
+Lemma mono_err {A} c : mono (@ierr A c).
+Proof. intros i b i' E. discriminate. Qed.
+Lemma mono_if {A} (c : bool) (m n : IM A) : mono m -> mono n -> mono (if c then m else n).
+Proof. destruct c; auto. Qed.
+Lemma mono_next_byte : mono next_byte.
+Proof. intros i b i' E. apply next_byte_ok in E. destruct E as (H1 & H2 & H3 & H4). split; [lia|exact H2]. Qed.
+Lemma mono_next_bytes n : mono (next_bytes n).
+Proof. intros i b i' E. apply next_bytes_ok in E. destruct E as (H1 & H2 & H3 & H4 & H5 & H6). split; [lia|exact H4]. Qed.
+Lemma mono_next_bytes_nocopy n : mono (next_bytes_nocopy n).
+Proof. exact (mono_next_bytes n). Qed.
+Lemma mono_ioffset : mono ioffset.
+Proof. intros i b i' E. inversion E; subst. split; [lia|reflexivity]. Qed.
+Lemma mono_progress {A} (m : IM A) : progress m -> mono m.
+Proof. intros H i a i' E. destruct (H _ _ _ E) as (H1 & H2 & H3). split; [lia|exact H3]. Qed.
+
+Lemma progress_bind_mono {A B} (m : IM A) (f : A -> IM B) : progress m -> (forall a, mono (f a)) -> progress (ibind m f).
+Proof. intros Hm Hf. apply progress_bind_first; [exact Hm|]. intros a i b i' E. exact (Hf a i b i' E). Qed.
+
+Lemma mono_iloop_fuel {A} (item : IM A) e : mono item -> forall k, mono (Model.Desc.iloop_fuel k e item).
+Proof.
+  intros Hi. induction k as [|k IH]; cbn [Model.Desc.iloop_fuel]; [apply mono_err|].
+  apply mono_bind; [apply mono_ioffset|]. intros off. apply mono_if; [|apply mono_ret].
+  apply mono_bind; [exact Hi|]. intros a. apply mono_bind; [exact IH|]. intros r. apply mono_ret.
+Qed.
+Lemma mono_iloop {A} (item : IM A) e : mono item -> mono (Model.Desc.iloop e item).
+Proof. intros Hi. unfold Model.Desc.iloop. apply mono_bind; [apply mono_ioffset|]. intros off. apply mono_iloop_fuel. exact Hi. Qed.
+
+Ltac mono_tac :=
+  repeat match goal with
+  | |- mono (ibind _ _) => apply mono_bind; [|intros ?]
+  | |- mono (iret _) => apply mono_ret
+  | |- mono (ierr _) => apply mono_err
+  | |- mono next_byte => apply mono_next_byte
+  | |- mono (next_bytes _) => apply mono_next_bytes
+  | |- mono (next_bytes_nocopy _) => apply mono_next_bytes_nocopy
+  | |- mono ioffset => apply mono_ioffset
+  | |- mono (if _ then _ else _) => apply mono_if
+  | |- mono (Model.Desc.iloop _ _) => apply mono_iloop
+  end.
+
